@@ -65,7 +65,7 @@ Verdict typeWith(Ctx& c, bool scoping, bool templates = false) {
   g.optRichTemplates = templates;
   g.makeContext();
   if (c.coin()) { Global a; a.name = "A1"; a.type = Ty::Logic(); g.G.globals.push_back(a); }
-  const int shape = templates ? 10 : c.ipick(0, 9);  // 0-5 plain, 6-7 function definition, 8 global definition, 9 structure declaration, 10 template call
+  const int shape = templates ? 10 : (scoping && c.chance(1, 3)) ? 6 : c.ipick(0, 9);  // 0-5 plain, 6-7 function definition, 8 global definition, 9 structure declaration, 10 template call
   EP e;
   if (shape == 10) {
     e = g.makeCall(c.oneof(g.G.funcs), {}, c.ipick(1, 3));
@@ -83,8 +83,21 @@ Verdict typeWith(Ctx& c, bool scoping, bool templates = false) {
       const int w = c.ipick(0, 4);
       Ty t = w == 0 ? Ty::Base("R1") : w == 1 ? Ty::Set(Ty::Base("R1")) : w == 2 ? Ty::Set(Ty::Base("R2")) : g.randType(2);
       const std::string n = names[static_cast<size_t>(i)] + (c.chance(1, 5) ? "1" : "");
+      // scoping: the domain of a parameter may be any closed set-typed term, with binders of its own (their locals precede the parameter)
+      EP dom;
+      if (scoping && !t.mentions("R1") && !t.mentions("R2") && c.chance(2, 3)) {
+        const auto saved = g.scope; g.scope.clear();
+        // a declarative set or a recursion over the plain domain: binders whose locals are declared before the parameter
+        const std::string v = g.freshLocal();
+        if (c.coin()) dom = mk(TID::NT_DECLARATIVE_EXPR, {mkName(TID::ID_LOCAL, v), domainExpr(t), mk(TID::EQUAL, {mkName(TID::ID_LOCAL, v), mkName(TID::ID_LOCAL, v)})});
+        else dom = mk(TID::NT_RECURSIVE_SHORT, {mkName(TID::ID_LOCAL, v), domainExpr(t), mkName(TID::ID_LOCAL, v)});
+        if (c.coin()) dom = mk(TID::UNION, {dom, g.genTerm(Ty::Set(t), 1)});
+        g.scope = saved;
+        c.label("funcdef:parameter-domain-with-binder");
+      }
+      else dom = domainExpr(t);
       g.scope.push_back({n, t}); g.everUsed.insert(n);
-      decl.push_back(mk(TID::NT_ARG_DECL, {mkName(TID::ID_LOCAL, n), domainExpr(t)}));
+      decl.push_back(mk(TID::NT_ARG_DECL, {mkName(TID::ID_LOCAL, n), dom}));
     }
     EP body = c.coin() ? g.genLogic(c.ipick(1, 2)) : g.genTerm(c.coin() ? g.scope[0].type : g.randType(2), c.ipick(1, 2));
     e = mk(TID::NT_FUNC_DEFINITION, {mk(TID::NT_ARGUMENTS, decl), body});
